@@ -1,6 +1,7 @@
 #!/bin/bash
 tier=$1; shift
 export VERIF_ARGS="$*"
+export VERIF_RACE_RUNS=3
 V=$(cd /verif && . ./env.sh && go list -m -f '{{.Dir}}' github.com/vektah/gqlparser/v2)
 export VERIF_EXTRA_OVERLAY="$V/validator/export_verif.go=/verif/props/c03/shim/export_verif.go"
 exec /verif/tools/instr_check.sh c03 "$tier" \
